@@ -147,7 +147,10 @@ Definition spec_step (s : spec_state) (hist : list out) (fail : list nat) (c0 : 
   | OAddRec p occ, OWrite (Some [r]) =>
     match r with
     | (true, Some (EId id, rs, re, ad)) =>
-      if (rs =? p_anchor p) && (re =? p_anchor p + p_dur p) &&
+      (* the reported master is the first occurrence: it ends when the pattern's local clock has
+         advanced by the duration (as every occurrence does, Spec/RecurSpec.v) *)
+      if (rs =? p_anchor p) &&
+         (re =? wall_to_utc (p_zone p) (utc_to_wall (p_zone p) (p_anchor p) + p_dur p) false) &&
          match find_item id s with None => true | Some _ => false end
       then Some (s ++ [mkAI id (p_sum p) None None false
                             (Some (occ_fun (filter (fun q => negb (inZ (fst q) (p_ex p))) occ))) 0 0 []])
